@@ -262,7 +262,18 @@ def r3_all_parents_placed(ctx: Context) -> None:
         fnb = _builder(ctx, pol)
         g = cfgmod.build(fnb)
         stores = [a for a in ast.walk(fnb) if isinstance(a, ast.Assign) and isinstance(a.targets[0], ast.Subscript) and norm(a.targets[0].value) == "parent_variables"]
-        ctx.floor("C11.R4", f"parent_variables stores ({pol[1]})", len(stores), 1)
+        # the same map written as a comprehension: {variable: n for variable in ... if <filter>}
+        comps = [a for a in ast.walk(fnb) if isinstance(a, (ast.Assign, ast.AnnAssign)) and a.value is not None and isinstance(a.value, ast.DictComp)
+                 and norm(a.targets[0] if isinstance(a, ast.Assign) else a.target) == "parent_variables"]
+        ctx.floor("C11.R4", f"parent_variables stores ({pol[1]})", len(stores) + len(comps), 1)
+        for a in comps:
+            filt = sorted("T:" + norm(i) for gen in a.value.generators for i in gen.ifs)
+            extra = [c for c in filt if c not in ("T:variable.task in parent_tasks",)]
+            srcs = [norm(gen.iter) for gen in a.value.generators]
+            ctx.check(not extra and srcs == ["tasks_to_variables.values()"], "C11.R4",
+                      f"{pol[0]}::{pol[1]}._add_task_dependency_constraints|every modelled parent is constrained", loc(a),
+                      "a variable is a parent variable iff its task is a parent",
+                      f"the parent map ranges over {srcs} filtered by {extra}: other parents no longer hold the child back")
         allowed = {"T:variable.task in parent_tasks", "T:num_parents_in_variable > 0", "F:task_variable.previously_placed", "T:len(parent_variables) > 0"}
         for st in stores:
             sn = g.node_of(st)
